@@ -500,6 +500,11 @@ O(id='NativeEnumerated_uper', props=['C01', 'C02', 'C08', 'C13'], kind='bounded'
   bound='one enumeration with four values {0,1,5,100}, with and without an extension marker after the second; every long value',
   trusted=['bsearch: stub (stubs/bsearch.c)'], min_props=50, timeout=900)
 
+# every proof-kind obligation that enforces a contract with dfcc also proves that function's frame (assigns clause): C19
+for _o in OBLIGATIONS:
+    if _o.get('enforce') and _o.get('kind') in ('enforce', 'width') and _o.get('tier') == 'quick' and 'C19' not in _o['props']:
+        _o['props'] = _o['props'] + ['C19']
+
 CONSTR = 'constructed codecs (SEQUENCE_*, SET_*, CHOICE_*, SET_OF_* / SEQUENCE_OF_* encode/decode for BER, OER, UPER), for arbitrary and for generated descriptors: symbolic execution of SEQUENCE_decode_ber on a generated 2-member descriptor does not finish in 10 minutes; the modular route (replace ber_fetch_tag/ber_check_tags/member decoders by contracts under dfcc) is not built'
 GEN = 'everything the compiler emits as text: type descriptor tables (emit_type_DEF, emit_member_table), constraint checkers (asn1c_emit_constraint_checking_code), tag maps, selector tables'
 XERU = 'all XER encoders/decoders (xer_decode_general, pxml_parse, OCTET_STRING hex/binary/entity bodies, REAL/INTEGER text forms through snprintf/strtod)'
